@@ -33,7 +33,9 @@ Inductive case :=
 | CPinned (cls : Z) (spec_acc model_acc impl_acc : bool)
 (* robustness observations that must all be true: no panic, terminated, errors inside the
    input, tree-or-errors, Run rejects, global object unchanged, ... *)
-| CRobust (flags : list bool).
+| CRobust (flags : list bool)
+(* for (x = <chain>; ;) ; with the chain abstracted to its operator classes (Model.noin_m) *)
+| CNoIn (ops : list Z) (accepted : bool).
 
 Definition oz_eqb := option_eqb Z.eqb.
 Definition span_eqb (a b : option Z * option Z) : bool :=
@@ -142,6 +144,7 @@ Definition verdict (c : case) : Z * Z :=
            | None => v
            end
   | CPinned cls spec_acc model_acc impl_acc => judge Bool.eqb impl_acc model_acc spec_acc cls
+  | CNoIn ops accepted => judge Bool.eqb accepted (noin_m false ops) (noin_s ops) 18
   | CRobust flags =>
       match first_false 0 flags with None => (0, 0) | Some i => (3, 40 + i) end
   end.
